@@ -1169,7 +1169,10 @@ class MultiDatasetTCLLHRatio(
         # llh ratio function. Since we need to adjust ns with nsj it's more
         # efficient to create this array once and use it within the for loop
         # over the llh ratio functions.
-        llhratio_fitparam_values = fitparam_values.copy()
+        # The array must be of type float64, because ns*f_j gets written into
+        # it. A plain copy would inherit an integer or float32 dtype from the
+        # given fit parameter values and silently truncate or round ns*f_j.
+        llhratio_fitparam_values = np.array(fitparam_values, dtype=np.float64)
 
         pmask = np.ones((n_fitparams,), dtype=np.bool_)
         pmask[ns_pidx] = False
